@@ -4,13 +4,14 @@ run-time generated sequences handed to the decoder are the ones the walk used an
 tracks the complementation mask per position, which is only valid if every flip cycle returns to the start
 before the next swap)."""
 from .. import facts as F
-from .C04 import analyse, generated, step_kernels
+from .C04 import analyse, generated, step_kernels, canon_windows
 
 LEVEL = "other"
 
 
 def run(chk):
     analyse(chk, "C05")
+    canon_windows(chk, "C05")
     generated(chk, "C05.Q")
     # the certificate decoder replays generator indices: the steps the walk applied must be those generators (n = 7, 8)
     step_kernels(chk, "C05.S")
